@@ -23,9 +23,15 @@ type Execution struct {
 }
 
 func NewExecution(query promql.Query, pool *model.VectorPool, opts *query.Options) *Execution {
+	// The remote engine evaluates the query on the same step grid and has
+	// already applied the lookback delta. Its samples are selected by their
+	// exact timestamps so that a series which ends in the remote result is not
+	// extended by another lookback delta.
+	remoteOpts := *opts
+	remoteOpts.LookbackDelta = 0
 	return &Execution{
 		query:          query,
-		vectorSelector: scan.NewVectorSelector(pool, newStorageFromQuery(query), opts, 0, 0, 1),
+		vectorSelector: scan.NewVectorSelector(pool, newStorageFromQuery(query), &remoteOpts, 0, 0, 1),
 	}
 }
 
